@@ -31,29 +31,30 @@ static bool ref_dsa(const Grp &G, const Z &y, const Z &m, const Z &r, const Z &s
 static Z pick_message(Ctx &ctx, const Grp &G, std::string &cls) {
   switch (ctx.c.weighted({1, 1, 1, 1, 4})) { case 0: cls = "0"; return 0; case 1: cls = "1"; return 1; case 2: cls = "q-1"; return G.q - 1; case 3: cls = "q"; return G.q; default: cls = "random"; return zrand_bits(ctx, (unsigned)mpz_sizeinbase(G.q.get_mpz_t(), 2)); } // a hash value truncated to |q| bits (may exceed q)
 }
-struct FaultSet { std::vector<bool> present, libswitch; std::string desc; size_t count = 0; };
+struct FaultSet { std::vector<bool> present, libswitch, leaves; std::string desc; size_t count = 0; }; // leaves: takes part honestly in the key generation and is gone when it comes to signing
 static FaultSet pick_faults(Ctx &ctx, size_t n, size_t maxf) {
-  FaultSet f; f.present.assign(n, true); f.libswitch.assign(n, false); size_t k = maxf ? (size_t)ctx.c.range(0, maxf) : 0;
+  FaultSet f; f.present.assign(n, true); f.libswitch.assign(n, false); f.leaves.assign(n, false); size_t k = maxf ? (size_t)ctx.c.range(1, maxf) : 0;
   std::vector<size_t> idx(n); for (size_t i = 0; i < n; i++) idx[i] = i;
-  for (size_t i = 0; i < k; i++) { size_t j = i + ctx.c.index(n - i); std::swap(idx[i], idx[j]); size_t who = idx[i]; if (ctx.c.prob(1, 3)) { f.present[who] = false; f.desc += " P" + std::to_string(who) + ":silent"; } else { f.libswitch[who] = true; f.desc += " P" + std::to_string(who) + ":library-switch"; } f.count++; }
+  for (size_t i = 0; i < k; i++) { size_t j = i + ctx.c.index(n - i); std::swap(idx[i], idx[j]); size_t who = idx[i]; switch (ctx.c.weighted({1, 2, 1})) { case 0: f.present[who] = false; f.desc += " P" + std::to_string(who) + ":silent"; break; case 1: f.libswitch[who] = true; f.desc += " P" + std::to_string(who) + ":library-switch"; break;
+      default: f.leaves[who] = true; f.desc += " P" + std::to_string(who) + ":leaves-after-key-generation"; } f.count++; }
   return f;
 }
 
 VF_SUB(threshold_schnorr_sign, 32, 1200) {
   Grp G = pick_grp(ctx); size_t n = (size_t)ctx.c.range(4, ctx.thorough ? 7 : 5), t = (size_t)ctx.c.range(1, (n - 1) / 3);
-  FaultSet F = pick_faults(ctx, n, ctx.c.coin() ? t : 0); std::string mcls; Z m = pick_message(ctx, G, mcls);
+  FaultSet F = pick_faults(ctx, n, ctx.c.prob(3, 5) ? t : 0); std::string mcls; Z m = pick_message(ctx, G, mcls);
   Cluster cl(n, t, F.present);
   std::vector<GennaroJareckiKrawczykRabinNTS *> nts(n, nullptr); std::vector<bool> gret(n, false), sret(n, false), vret(n, false); std::vector<Z> C(n), S(n);
   std::ostringstream d; d << "threshold_schnorr n=" << n << " t=" << t << " m=" << mcls << " faults:" << (F.desc.empty() ? " none" : F.desc);
   bool simok = cl.run(ctx, [&](PartyEnv &e) {
     nts[e.i] = new GennaroJareckiKrawczykRabinNTS(n, t, e.i, G.p.get_mpz_t(), G.q.get_mpz_t(), G.g.get_mpz_t(), G.h.get_mpz_t(), G.F, G.G, true, false);
-    e.rbc->setID("c16-nts-generate"); gret[e.i] = nts[e.i]->Generate(e.aiou, e.rbc, e.err, F.libswitch[e.i]); e.rbc->unsetID(); cl.barrier(e, 1);
+    e.rbc->setID("c16-nts-generate"); gret[e.i] = nts[e.i]->Generate(e.aiou, e.rbc, e.err, F.libswitch[e.i]); e.rbc->unsetID(); cl.barrier(e, 1); if (F.leaves[e.i]) return;
     e.rbc->setID("c16-nts-sign"); sret[e.i] = nts[e.i]->Sign(m.get_mpz_t(), C[e.i].get_mpz_t(), S[e.i].get_mpz_t(), e.aiou, e.rbc, e.err, F.libswitch[e.i]); e.rbc->unsetID();
     if (sret[e.i]) vret[e.i] = nts[e.i]->Verify(m.get_mpz_t(), C[e.i].get_mpz_t(), S[e.i].get_mpz_t()); });
   ctx.desc << d.str() << " vtime=" << vf::vnow; ctx.label("n=" + std::to_string(n)); ctx.label(F.count ? "with-faults" : "fault-free"); ctx.label("m=" + mcls);
   ctx.nontrivial(d.str() + std::to_string(cl.bc.sent));
   if (!simok) ctx.fail("tsig/schnorr/simulation-deadlock-or-time-budget", d.str() + cl.task_errors());
-  std::vector<size_t> H; for (size_t i = 0; i < n; i++) if (F.present[i] && !F.libswitch[i]) H.push_back(i);
+  std::vector<size_t> H; for (size_t i = 0; i < n; i++) if (F.present[i] && !F.libswitch[i] && !F.leaves[i]) H.push_back(i);
   bool first = true; Z c0, s0;
   for (size_t i : H) { if (ctx.failed) break;
     if (!gret[i]) { ctx.fail("tsig/schnorr/honest-party-fails-key-generation", "party " + std::to_string(i) + " " + d.str() + " log: " + cl.env[i]->err.str().substr(0, 600) + cl.task_errors()); break; }
@@ -67,20 +68,21 @@ VF_SUB(threshold_schnorr_sign, 32, 1200) {
 
 VF_SUB(threshold_dss_sign, 12, 400) {
   Grp G = pick_grp(ctx); size_t n = (size_t)ctx.c.range(4, 5), t = 1;
-  FaultSet F = pick_faults(ctx, n, ctx.c.coin() ? t : 0); std::string mcls; Z m = pick_message(ctx, G, mcls); bool do_refresh = ctx.c.coin();
+  FaultSet F = pick_faults(ctx, n, ctx.c.prob(3, 5) ? t : 0); std::string mcls; Z m = pick_message(ctx, G, mcls); bool do_refresh = ctx.c.coin();
   Cluster cl(n, t, F.present);
   std::vector<CanettiGennaroJareckiKrawczykRabinDSS *> dss(n, nullptr); std::vector<bool> gret(n, false), sret(n, false), rret(n, true), s2ret(n, true); std::vector<Z> R(n), S(n), R2(n), S2(n);
   std::ostringstream d; d << "threshold_dss n=" << n << " t=" << t << " m=" << mcls << (do_refresh ? " +refresh+sign" : "") << " faults:" << (F.desc.empty() ? " none" : F.desc);
   bool simok = cl.run(ctx, [&](PartyEnv &e) {
     dss[e.i] = new CanettiGennaroJareckiKrawczykRabinDSS(n, t, e.i, G.p.get_mpz_t(), G.q.get_mpz_t(), G.g.get_mpz_t(), G.h.get_mpz_t(), G.F, G.G, true, false);
     e.rbc->setID("c16-dss-generate"); gret[e.i] = dss[e.i]->Generate(e.aiou, e.rbc, e.err, F.libswitch[e.i]); e.rbc->unsetID(); cl.barrier(e, 1);
+    if (F.leaves[e.i]) { cl.barrier(e, 2); if (do_refresh) cl.barrier(e, 3); return; } // keeps serving the broadcast layer inside the barriers, takes no part in the protocols
     e.rbc->setID("c16-dss-sign"); sret[e.i] = dss[e.i]->Sign(n, e.i, m.get_mpz_t(), R[e.i].get_mpz_t(), S[e.i].get_mpz_t(), e.aiou, e.rbc, e.err, F.libswitch[e.i]); e.rbc->unsetID(); cl.barrier(e, 2);
     if (do_refresh) { e.rbc->setID("c16-dss-refresh"); rret[e.i] = dss[e.i]->Refresh(n, e.i, e.aiou, e.rbc, e.err, F.libswitch[e.i]); e.rbc->unsetID(); cl.barrier(e, 3);
       e.rbc->setID("c16-dss-sign-after-refresh"); s2ret[e.i] = dss[e.i]->Sign(n, e.i, m.get_mpz_t(), R2[e.i].get_mpz_t(), S2[e.i].get_mpz_t(), e.aiou, e.rbc, e.err, F.libswitch[e.i]); e.rbc->unsetID(); } });
   ctx.desc << d.str() << " vtime=" << vf::vnow; ctx.label("n=" + std::to_string(n)); ctx.label(F.count ? "with-faults" : "fault-free"); ctx.label("m=" + mcls); if (do_refresh) ctx.label("refresh");
   ctx.nontrivial(d.str() + std::to_string(cl.bc.sent));
   if (!simok) ctx.fail("tsig/dss/simulation-deadlock-or-time-budget", d.str() + cl.task_errors());
-  std::vector<size_t> H; for (size_t i = 0; i < n; i++) if (F.present[i] && !F.libswitch[i]) H.push_back(i);
+  std::vector<size_t> H; for (size_t i = 0; i < n; i++) if (F.present[i] && !F.libswitch[i] && !F.leaves[i]) H.push_back(i);
   bool first = true; Z r0, s0;
   for (size_t i : H) { if (ctx.failed) break; Z y(dss[i]->y);
     // a party may be disqualified-after-share-phase in key generation (known finding of C15 in the underlying DKG): then the key itself is inconsistent
